@@ -190,6 +190,14 @@ class Executor:
                 return st.ghost[key]
             if re.fullmatch(r'loop\d+_exhausted', key):
                 return 'false'
+            al = getattr(self, 'local_alias', {})
+            root = key.split('.')[0].rstrip('!')
+            if root in al and not getattr(self, '_aliasing', False):
+                self._aliasing = True
+                try:
+                    return sub(re.match(r'(.*)', key.replace(root, al[root], 1)))      # same placeholder under the renamed local
+                finally:
+                    self._aliasing = False
             raise OutOfSubset('contract placeholder {%s} not bound on this path (%s)' % (key, self.qualname))
         return _PH.sub(sub, tmpl)
 
